@@ -5,9 +5,12 @@
   `strconv.ParseInt(·,10,8)` written out), `SubscribeTo` / `UnSubscribeFrom` / `GetSubscribers` on a flat association
   list, histories of subscribe / unsubscribe / deliver. A delivery is "send to every channel GetSubscribers returns"
   (the goroutine fan-out of ProcessMessagesFromStream is tied by the correspondence runs, not modelled).
-  What is assumed (hypotheses of `refines`, all decidable, see `wf`): message types are the declared ones (≤ Unknown = 13),
-  only ids handed out by Subscribe are cancelled, and the clock-derived suffix is not repeated within one
-  (session, type). The excluded points have their lemmas below (`beyond_enum_point`, `same_suffix_point`).
+  Hypotheses of `refines` (all decidable, see `wf` = `wfIn` ∧ `fresh`): message types are the declared ones
+  (≤ Unknown = 13) and only ids handed out by Subscribe are cancelled — properties of the INPUT (`wfIn`); and the
+  identifiers handed out are fresh — a property of the implementation's OUTPUT (`fresh`; in the real code the suffix is
+  uint32(UnixNano)), which is therefore part of the predicate `PFull` the driver evaluates on every run, not an
+  assumption about the code. What is lost without it: `repeated_suffix_loses`, `stale_id_cancels_newer`,
+  `bucket_size_numbering_point`, `same_suffix_point`. Other excluded points: `beyond_enum_point`, `respelled_id_point`.
   Mutual exclusion is ASSUMED, not checked: every manager method takes the one mutex for its whole body (read off
   the source by hand; no regenerated fact), so a concurrent execution is one of the sequential histories quantified
   over here. Data-race freedom is not examined.
@@ -436,6 +439,65 @@ theorem same_suffix_point :
 theorem respelled_id_point :
     let ops := [Op.sub (str "1") 4 111, .unsubRaw (str "1-+4-111"), .deliver (str "1") 4]
     wf ops = false ∧ deliveries (run ops).out = [[]] := by
+  decide
+
+/-! #### identifiers must be fresh -/
+
+/-- `wf` = the input half ∧ the freshness of the identifiers handed out -/
+theorem wfFrom_split (seen : List (Str × Nat × Nat)) (ops : List Op) :
+    wfFrom seen ops = (wfIn ops && freshFrom seen ops) := by
+  induction ops generalizing seen with
+  | nil => rfl
+  | cons op ops ih =>
+    cases op with
+    | sub s t u =>
+      simp only [wfFrom, wfIn, freshFrom, ih]
+      cases decide (t ≤ unknownType) <;> cases (seen.contains (s, t, u)) <;> cases wfIn ops <;> simp
+    | unsub k => simp only [wfFrom, wfIn, freshFrom, ih]
+    | unsubRaw id => simp [wfFrom, wfIn]
+    | deliver s t => simp only [wfFrom, wfIn, freshFrom, ih]
+
+/-- **C12 (complete predicate).** For every history of declared types in which only handed-out ids are cancelled: IF
+    the identifiers handed out are fresh, the full predicate the driver evaluates holds of the model. Freshness itself
+    is a property of the implementation's output (the suffix is clock-derived in the real code), evaluated on every run. -/
+theorem refines_full (ops : List Op) (hin : wfIn ops = true) (hf : fresh ops = true) :
+    PFull ops (deliveries (run ops).out) (retained (run ops).st) = true := by
+  have hw : wf ops = true := by unfold wf; rw [wfFrom_split]; simp [hin]; exact hf
+  simp [PFull, hf, refines ops hw]
+
+/-- **Why freshness is part of the property: a repeated identifier loses a live subscriber.** In ANY manager state,
+    if channel `h` is subscribed to (s, t) under suffix `u` and a new subscription to (s, t) is handed the same
+    suffix, then `h` is no longer among the subscribers of (s, t) although it was never cancelled — and it is gone
+    from the state. -/
+theorem repeated_suffix_loses (st : St) (s : Str) (t u h ch : Nat) (ht : t ≤ unknownType) (hne : ch ≠ h)
+    (_hlive : (⟨s, t, dec u, h⟩ : Entry) ∈ st) (hkeys : ∀ e ∈ st, e.ch = h → e = ⟨s, t, dec u, h⟩) :
+    h ∉ subscribers (subscribe st s t u ch).1 s t ∧ h ∉ (retained (subscribe st s t u ch).1).map (·.h) := by
+  have hkey : keyOf (newId s t u) = dec u := by simp [keyOf, unwrap_newId s t u ht]
+  have hgone : h ∉ (retained (subscribe st s t u ch).1).map (·.h) := by
+    simp only [subscribe, hkey, retained, List.map_append, List.map_map, List.mem_append, List.mem_map,
+      List.mem_filter, not_or]
+    refine ⟨?_, ?_⟩
+    · rintro ⟨e, ⟨he, hat⟩, hh⟩
+      have := hkeys e he hh
+      subst this
+      simp [Entry.at] at hat
+    · simp; exact fun e => hne e
+  exact ⟨fun hm => hgone (subscribers_sub _ s t h hm), hgone⟩
+
+/-- … and the stale identifier then cancels the NEWER subscription (both share one id) -/
+theorem stale_id_cancels_newer :
+    let s := str "1"
+    let ops := [Op.sub s 4 0, .unsub 0, .sub s 4 0, .unsub 0, .deliver s 4]
+    wfIn ops = true ∧ fresh ops = false ∧ deliveries (run ops).out = [[]] ∧ (srun ops).out = [[1]] ∧
+    PFull ops (deliveries (run ops).out) (retained (run ops).st) = false := by
+  decide
+
+/-- the bucket-size numbering (identifier = current size of the (session, type) bucket) repeats suffix 1:
+    subscribe A, B, cancel A, subscribe C — B is dropped although never cancelled -/
+theorem bucket_size_numbering_point :
+    let s := str "1-2-100-104-0"
+    let ops := [Op.sub s 4 0, .sub s 4 1, .unsub 0, .sub s 4 1, .deliver s 4]
+    wfIn ops = true ∧ fresh ops = false ∧ deliveries (run ops).out = [[2]] ∧ (srun ops).out = [[1, 2]] := by
   decide
 
 end Property
